@@ -50,15 +50,16 @@ import (
 )
 
 const (
-	c03Cap        = 16
-	c03MaxRecv    = 3
-	c03MaxHeader  = 2048
-	c03User       = "user"
-	c03Pass       = "pass"
-	c03SrcDomain  = "src.example"
-	c03NoopText   = "I have successfully done nothing"
-	c03IOTimeout  = 60 * time.Second
-	c03ProbeBlock = 25 * time.Millisecond
+	c03Cap          = 16
+	c03MaxRecv      = 3
+	c03MaxHeader    = 2048
+	c03User         = "user"
+	c03Pass         = "pass"
+	c03SrcDomain    = "src.example"
+	c03NoopText     = "I have successfully done nothing"
+	c03IOTimeout    = 60 * time.Second
+	c03ProbeBlock   = 25 * time.Millisecond
+	c03ProbeConfirm = 10 * time.Second
 )
 
 var (
@@ -288,22 +289,25 @@ func c03Endpoint(t *testing.T, s *c03Scn, elog *c03ErrLog) (*Endpoint, string) {
 		b.WriteString("}\n")
 	}
 	b.WriteString("default_destination {\n reject 557 5.1.1 \"unknown domain\"\n}\n")
-	endp := c03EndpointBase(t, s.lmtp, s.deferred, b.String(), c03LimCfgs[s.lim], elog)
+	// the endpoint listens itself (tcp://127.0.0.1:0) when the peer address is the real one; otherwise its only
+	// listener is the one that shows the server the peer address of the scenario
+	remote := c03PeerAddr(s.peer)
+	endp := c03EndpointBase(t, s.lmtp, s.deferred, b.String(), c03LimCfgs[s.lim], elog, remote == nil)
 	for k := range c03Targets {
 		c03Targets[k].Partial = s.partial&(1<<k) != 0
 	}
-	addr := endp.listeners[0].Addr().String()
-	if remote := c03PeerAddr(s.peer); remote != nil {
-		var err error
-		if addr, err = c03Listen(t, endp, remote); err != nil {
-			t.Fatal(err)
-		}
+	if remote == nil {
+		return endp, endp.listeners[0].Addr().String()
+	}
+	addr, err := c03Listen(t, endp, remote)
+	if err != nil {
+		t.Fatal(err)
 	}
 	return endp, addr
 }
 
 // c03EndpointBase: a real endpoint on a loopback port with the given pipeline and limits block.
-func c03EndpointBase(t *testing.T, lmtp, deferred bool, pipeline string, limDirs []string, elog *c03ErrLog) *Endpoint {
+func c03EndpointBase(t *testing.T, lmtp, deferred bool, pipeline string, limDirs []string, elog *c03ErrLog, listen bool) *Endpoint {
 	c03Register()
 	name := "smtp"
 	if lmtp {
@@ -313,8 +317,12 @@ func c03EndpointBase(t *testing.T, lmtp, deferred bool, pipeline string, limDirs
 	// (tens of thousands of sessions in TIME_WAIT, other jobs on the host): that says nothing about
 	// the code under test - wait for ports to drain instead of failing the run.
 	var endp *Endpoint
+	var addrs []string
+	if listen {
+		addrs = []string{"tcp://127.0.0.1:0"}
+	}
 	for try := 0; ; try++ {
-		mod, err := New(name, []string{"tcp://127.0.0.1:0"})
+		mod, err := New(name, addrs)
 		if err != nil {
 			t.Fatal(err)
 		}
@@ -721,11 +729,11 @@ func c03PeerString(peer string) string {
 }
 
 // free permits for a source domain key = how many TakeMsg succeed at once (at most c03Cap are tried)
-func c03Free(g *limits.Group, domain string) int {
+func c03Free(g *limits.Group, domain string, block time.Duration) int {
 	ip := net.IPv4(127, 0, 0, 1)
 	n := 0
 	for n < c03Cap {
-		ctx, cancel := context.WithTimeout(context.Background(), c03ProbeBlock)
+		ctx, cancel := context.WithTimeout(context.Background(), block)
 		err := g.TakeMsg(ctx, ip, domain)
 		cancel()
 		if err != nil {
@@ -1301,8 +1309,16 @@ func c03One(t *testing.T, out *vh.Out, s *c03Scn) {
 	}
 	// the real limiter state, before the probes below create buckets of their own
 	snap := vc03.LimSnapshot(endp.limits)
-	free0 := c03Free(endp.limits, c03SrcDomain)
-	free1 := c03Free(endp.limits, "")
+	free0 := c03Free(endp.limits, c03SrcDomain, c03ProbeBlock)
+	free1 := c03Free(endp.limits, "", c03ProbeBlock)
+	if (free0 < c03Cap || free1 < c03Cap) && len(vc03.LimBusy(snap)) == 0 {
+		// The limiter state shows nothing out, yet a probe was refused: on a stalled machine the probe's own
+		// deadline can pass before the limiter is even asked (select picks among ready cases at random).  Ask
+		// again with a deadline that only a permit that is really held can exhaust.
+		free0 = c03Free(endp.limits, c03SrcDomain, c03ProbeConfirm)
+		free1 = c03Free(endp.limits, "", c03ProbeConfirm)
+		out.Stat("probe.reconfirmed")
+	}
 	leakA, leakB := c03Cap-free0, c03Cap-free1
 	vc03.LimClose(endp.limits)
 	elog.mu.Lock()
@@ -1665,7 +1681,7 @@ func TestVerifC03LimitTimeouts(t *testing.T) {
 		var runs []*c03TRun
 		for _, s := range wave {
 			r := &c03TRun{s: s, elog: &c03ErrLog{}}
-			r.endp = c03EndpointBase(t, s.lmtp, s.deferred, pipeline, s.limDirs(), r.elog)
+			r.endp = c03EndpointBase(t, s.lmtp, s.deferred, pipeline, s.limDirs(), r.elog, false)
 			var err error
 			if r.hAddr, err = c03Listen(t, r.endp, c03PeerAddr(s.peer)); err != nil {
 				t.Fatal(err)
